@@ -243,13 +243,13 @@ fn step_update<const N: usize>(kl: [usize; N], vl: [usize; N], i: usize, new_vl:
 }
 
 // ---- shapes: (key lengths) / (value lengths); keys shorter than, equal to and longer than the 4-byte slot prefix
-// @vt prop=C28,C29 tier=quick feat=sp fs=600 bound="insert_cell_at(pos) into ANY valid leaf of shape keys(2,5,3)/values(1,2,0) (arbitrary bytes), new key 4 / value 2 bytes sorting at each position 0..=3" outside="other shapes; values > 240 bytes" timeout=900 mem=16
+// @vt prop=C28,C29 tier=quick feat=sp fs=600 bound="insert_cell_at(pos) into ANY valid leaf of shape keys(2,5,3)/values(1,2,0) (arbitrary bytes), new key 4 / value 2 bytes sorting at each position 0..=3" outside="other shapes; values > 240 bytes" timeout=1800 mem=16
 vt_proof_pg! { unwind = 10; fn c28_leaf_insert_at_3cells() {
     let r0 = step_insert::<3>(InsKind::At, [2, 5, 3], [1, 2, 0], 4, 2, 0, false, PAGE_SIZE, 0); let r1 = step_insert::<3>(InsKind::At, [2, 5, 3], [1, 2, 0], 4, 2, 1, false, PAGE_SIZE, 0);
     let r2 = step_insert::<3>(InsKind::At, [2, 5, 3], [1, 2, 0], 4, 2, 2, false, PAGE_SIZE, 0); let r3 = step_insert::<3>(InsKind::At, [2, 5, 3], [1, 2, 0], 4, 2, 3, false, PAGE_SIZE, 0);
     kani::cover!(r0, "w:insert_succeeds");
 }}
-// @vt prop=C28,C29 tier=quick feat=sp fs=600 bound="insert_cell_at: shapes keys(4,4)/values(1,1) with 3 dead bytes below the cells, new key 2 / value 0 at positions 0..=2; empty leaf; exact fit and one byte short" outside="other shapes" timeout=900 mem=16
+// @vt prop=C28,C29 tier=quick feat=sp fs=600 bound="insert_cell_at: shapes keys(4,4)/values(1,1) with 3 dead bytes below the cells, new key 2 / value 0 at positions 0..=2; empty leaf; exact fit and one byte short" outside="other shapes" timeout=1800 mem=16
 vt_proof_pg! { unwind = 10; fn c28_leaf_insert_at_small_and_full() {
     let r0 = step_insert::<2>(InsKind::At, [4, 4], [1, 1], 2, 0, 0, false, PAGE_SIZE, 3); let r1 = step_insert::<2>(InsKind::At, [4, 4], [1, 1], 2, 0, 1, false, PAGE_SIZE, 3);
     let r2 = step_insert::<2>(InsKind::At, [4, 4], [1, 1], 2, 0, 2, false, PAGE_SIZE, 3);
@@ -259,7 +259,7 @@ vt_proof_pg! { unwind = 10; fn c28_leaf_insert_at_small_and_full() {
     let r5 = step_insert::<2>(InsKind::At, [3, 3], [1, 1], 4, 2, 1, false, 24 + 16 + 10 + 14, 0);
     kani::cover!(r0, "w:insert_succeeds"); kani::cover!(!r5, "w:insert_refused");
 }}
-// @vt prop=C28,C29 tier=quick feat=sp fs=600 bound="insert_cell (find_key replaced by its specification) into ANY valid leaf of shape keys(2,5,3)/values(1,2,0), new key 4 / value 2 at positions 0..=3, and a duplicate of entry 1 (must be refused); exact fit / one byte short" outside="other shapes; the real find_key_simd (decided against the same specification under C30)" timeout=900 mem=16
+// @vt prop=C28,C29 tier=quick feat=sp fs=600 bound="insert_cell (find_key replaced by its specification) into ANY valid leaf of shape keys(2,5,3)/values(1,2,0), new key 4 / value 2 at positions 0..=3, and a duplicate of entry 1 (must be refused); exact fit / one byte short" outside="other shapes; the real find_key_simd (decided against the same specification under C30)" timeout=1800 mem=16
 vt_proof_pg_findspec! { unwind = 10; fn c28_leaf_insert_cell_findspec() {
     let r0 = step_insert::<3>(InsKind::CellFindSpec, [2, 5, 3], [1, 2, 0], 4, 2, 0, false, PAGE_SIZE, 0); let r1 = step_insert::<3>(InsKind::CellFindSpec, [2, 5, 3], [1, 2, 0], 4, 2, 2, false, PAGE_SIZE, 0);
     let r2 = step_insert::<3>(InsKind::CellFindSpec, [2, 5, 3], [1, 2, 0], 4, 2, 3, false, PAGE_SIZE, 0);
@@ -268,26 +268,26 @@ vt_proof_pg_findspec! { unwind = 10; fn c28_leaf_insert_cell_findspec() {
     let r5 = step_insert::<2>(InsKind::CellFindSpec, [3, 3], [1, 1], 4, 2, 1, false, 24 + 16 + 10 + 14, 0);
     kani::cover!(r0, "w:insert_succeeds"); kani::cover!(!r3, "w:insert_refused");
 }}
-// @vt prop=C28,C29 tier=quick feat=sp fs=600 bound="insert_at_end (append path) into ANY valid leaf of shape keys(2,5,3)/values(1,2,0), new greatest key 3 / value 2; also exact fit / one byte short" outside="other shapes" timeout=900 mem=16
+// @vt prop=C28,C29 tier=quick feat=sp fs=600 bound="insert_at_end (append path) into ANY valid leaf of shape keys(2,5,3)/values(1,2,0), new greatest key 3 / value 2; also exact fit / one byte short" outside="other shapes" timeout=1800 mem=16
 vt_proof_pg! { unwind = 10; fn c28_leaf_append() {
     let r0 = step_insert::<3>(InsKind::AtEnd, [2, 5, 3], [1, 2, 0], 3, 2, 3, false, PAGE_SIZE, 0);
     let r1 = step_insert::<1>(InsKind::AtEnd, [4], [1], 3, 2, 1, false, 24 + 8 + 6 + 14, 0);
     let r2 = step_insert::<1>(InsKind::AtEnd, [4], [1], 3, 2, 1, false, 24 + 8 + 6 + 13, 0);
     kani::cover!(r0, "w:insert_succeeds"); kani::cover!(!r2, "w:insert_refused");
 }}
-// @vt prop=C28,C29 tier=quick feat=sp fs=600 bound="delete_cell(i) for i in 0..=3 on ANY valid leaf of shape keys(2,5,3)/values(1,2,0), incl. out-of-range index; fragmentation counter 0 and 100 (below the compaction threshold of the 512-byte build)" outside="other shapes; compaction (reachable only in the small-page build: the u8 counter cannot exceed (16384-24)/4)" timeout=900 mem=16
+// @vt prop=C28,C29 tier=quick feat=sp fs=600 bound="delete_cell(i) for i in 0..=3 on ANY valid leaf of shape keys(2,5,3)/values(1,2,0), incl. out-of-range index; fragmentation counter 0 and 100 (below the compaction threshold of the 512-byte build)" outside="other shapes; compaction (reachable only in the small-page build: the u8 counter cannot exceed (16384-24)/4)" timeout=1800 mem=16
 vt_proof_pg! { unwind = 10; fn c28_leaf_delete() {
     step_delete::<3>([2, 5, 3], [1, 2, 0], 0, 0); step_delete::<3>([2, 5, 3], [1, 2, 0], 1, 100);
     step_delete::<3>([2, 5, 3], [1, 2, 0], 2, 0); step_delete::<3>([2, 5, 3], [1, 2, 0], 3, 0);
     step_delete::<1>([4], [2], 0, 0);
 }}
-// @vt prop=C28,C29 tier=quick feat=sp fs=600 bound="update_cell_value_in_place / _shrink on ANY valid leaf of shape keys(2,5,3)/values(3,2,4): same size, shrink to 0..3, and growing (must be refused)" outside="other shapes; values > 240 bytes (varint width change: c28_leaf_shrink_across_varint_width)" timeout=900 mem=16
+// @vt prop=C28,C29 tier=quick feat=sp fs=600 bound="update_cell_value_in_place / _shrink on ANY valid leaf of shape keys(2,5,3)/values(3,2,4): same size, shrink to 0..3, and growing (must be refused)" outside="other shapes; values > 240 bytes (varint width change: c28_leaf_shrink_across_varint_width)" timeout=1800 mem=16
 vt_proof_pg! { unwind = 10; fn c28_leaf_update() {
     step_update::<3>([2, 5, 3], [3, 2, 4], 0, 3); step_update::<3>([2, 5, 3], [3, 2, 4], 1, 1);
     step_update::<3>([2, 5, 3], [3, 2, 4], 2, 0); step_update::<3>([2, 5, 3], [3, 2, 4], 1, 3);
 }}
 
-// @vt prop=C28,C29 tier=quick feat=sp fs=600 bound="update_cell_value_shrink across the varint width boundary: a leaf with one cell whose value is 241 bytes (2-byte length varint) shrunk to 240 / 100 / 0 bytes (1-byte varint); first, second and last value bytes symbolic, the rest a concrete filler" outside="the 2287/2288 boundary (does not fit a 512-byte page); fully symbolic 240-byte values" timeout=900 mem=16
+// @vt prop=C28,C29 tier=quick feat=sp fs=600 bound="update_cell_value_shrink across the varint width boundary: a leaf with one cell whose value is 241 bytes (2-byte length varint) shrunk to 240 / 100 / 0 bytes (1-byte varint); first, second and last value bytes symbolic, the rest a concrete filler" outside="the 2287/2288 boundary (does not fit a 512-byte page); fully symbolic 240-byte values" timeout=1800 mem=16
 vt_proof_pg! { unwind = 10; fn c28_leaf_shrink_across_varint_width() {
     let new_len: usize = kani::any();
     kani::assume(new_len == 240 || new_len == 100 || new_len == 0);
